@@ -194,6 +194,10 @@ def render_params(m, is_method, spelling=None):
 def render_site(m, k, site, is_method):
     pos = ", ".join(f"_a[1][{j}]" for j in range(site["npos"]))
     kws = ", ".join(f"{n}=_a[2][{n!r}]" for n in site.get("kws", []))
+    if site.get("star") and site["fn"] in ("recurse", "call_next"):
+        # a call whose shape is not known statically: starred / double-starred arguments
+        pos = f"*_a[1][:{site['npos']}]"
+        kws = "**_a[2]" if site.get("kws") else ""
     args = ", ".join(x for x in (pos, kws) if x)
     fn = site["fn"]
     if fn == "recurse":
